@@ -50,7 +50,7 @@ def gen_cases(rng, tier):
     groute = "api" if route.startswith("api") else "potable"
     model = spec.gen_eam_model(rng, "eam", groute, target=rng.choice(["setfl", "lammps_eam_alloy"]))
     if groute == "api":
-      model["api_containers"] = rng.choice([None, None, "tuple", "generator", "map"])
+      model["api_containers"] = rng.choice([None, None, "tuple", "generator", "map", "amend_after_write"])
     cases.append({"route": route, "model": model, "style": rng.randrange(1 << 30)})
     # exhaustive declaration orders for <= 3 elements (potable route)
     if groute == "potable" and len(model["embed"]) in (2, 3) and i % 3 == 0:
@@ -63,6 +63,10 @@ def gen_cases(rng, tier):
     route = ["potable", "cli", "api_class", "potable", "api_legacy"][i % 5]
     model = spec.exact_boundary_eam(rng, "eam", rng.choice(["setfl", "lammps_eam_alloy"]), "api" if route.startswith("api") else "potable")
     cases.append({"route": route, "model": model, "style": rng.randrange(1 << 30)})
+  # row-count sweep (everything small, m*10^k, 2^k, multiples of 5000, each with neighbours): structure and end values
+  szs = spec.edge_sizes(tier, multiple_of=1, lo=2)
+  for c0 in range(0, len(szs), 12):
+    cases.append({"kind": "sizes", "sizes": szs[c0:c0 + 12], "route": "api_legacy", "model": None, "style": 0})
   return cases
 
 
@@ -84,7 +88,20 @@ def produce(case, ctx, model, route, rng):
     nr, nrho = int(t["nr"]), int(t["nrho"])
     out = io.StringIO()
     fn = ap.writeSetFLFinnisSinclair if model["type"] == "fs" else ap.writeSetFL
-    fn(nrho, float(t["cutoff_rho"]) / (nrho - 1), nr, float(t["cutoff"]) / (nr - 1), eams, pots, out)
+    # optional keyword arguments of the legacy writers: an explicit header cutoff (inside or outside the tabulated range)
+    # and comment lines.  They belong to the header; no tabulated value may depend on them.
+    kw = {}
+    c_ = rng.random()
+    span = float(t["cutoff"])
+    if c_ < 0.25:
+      kw["cutoff"] = round(span * rng.choice([0.37, 0.5, 0.81]), 6)
+    elif c_ < 0.35:
+      kw["cutoff"] = round(span * 1.5, 6)
+    if rng.random() < 0.3:
+      kw["comments"] = ["first comment", "second", "third line"]
+    for k_ in kw:
+      ctx.cls("legacy_keyword:" + k_)
+    fn(nrho, float(t["cutoff_rho"]) / (nrho - 1), nr, float(t["cutoff"]) / (nr - 1), eams, pots, out, **kw)
     return out.getvalue()
   tab = routes.read_config(emit.model_text(model, emit.Style(rng)))
   return routes.write_tab(tab)
@@ -119,6 +136,15 @@ def check_header_and_meta(ctx, p, ref, model, route):
 
 
 def run_case(case, ctx):
+  if case.get("kind") == "sizes":
+    import sizesweep
+    ctx.cls("kind:row_count_sweep")
+    for n_ in case["sizes"]:
+      ctx.cls(sizesweep.size_class(n_))
+      if not (sizesweep.check_setfl(ctx, n_)):
+        return
+    ctx.nontrivial(True)
+    return
   model = case["model"]
   route = case["route"]
   potable = not route.startswith("api")
